@@ -5,7 +5,7 @@ CONSTANTS Names <- NamesAB Depth = 1 Vals <- None Sep = 46 Design = "list" Base 
   Routes <- None Cfgs <- None SingleKinds <- None PrePaths <- None
   LoadKinds <- None TwoFiles = FALSE EnvCalls <- None ArgCalls <- None ClearLists <- None
   MsgSets <- None MsgGets <- None NodeBases <- None FputSeps <- FputQ
-  MaxOps = 0 MaxArr = 0 SinglesFirst = FALSE Observe = TRUE
+  MaxOps = 0 MaxArr = 0 SingleWhen = "any" QuoteSet <- AllQuotes Observe = TRUE
 CONSTRAINT BoundPT
 VIEW ViewP
 ACTION_CONSTRAINT EmitP
